@@ -25,8 +25,7 @@ Proof.
     rewrite (scan_hit match_placeholder (ph_bytes p) (phdoc_bytes r tail) (ph_kind p)).
     + rewrite (IH tail Hr Ht), <- !app_assoc. reflexivity.
     + destruct (ph_bytes_lt p) as [r0 ->]. discriminate.
-    + unfold ph_bytes. unfold ph_wf, ph_wfb in Hw. apply andb_true_iff in Hw as [Hw1 Hw2].
-      apply match_placeholder_emit; assumption.
+    + unfold ph_bytes. apply match_placeholder_emit. exact Hw.
 Qed.
 
 Lemma subst_items_app a b js css : subst_items (a ++ b) js css = subst_items a js css ++ subst_items b js css.
